@@ -25,8 +25,8 @@ CHECKS.update({
    note="The instant exactly one window old is a don't-care (both drivers must still agree with each other).",
    technique=TECH+"keep-alive histories on a simulated clock vs a reference model of peer tracking", design="4 C11"),
  "C13": dict(level="fault_enumeration",
-   text="For every generated history, a crash image of the database directory is taken at every in-transaction yield point of every operation and after every operation, reopened (sometimes with the exact production options) and compared with the model before/after the interrupted operation; a concurrent reader checks isolation while the writer is parked; close+reopen after every operation; old on-disk formats 0/1/2 are synthesised and opened through the driver with a crash image inside the migration.",
-   note="Process kill is modelled as a copy of the database directory while every goroutine is parked (what the page cache holds, as after SIGKILL), one image in three additionally with the last value-log write torn (cut strictly inside the bytes the interrupted commit appended; the reopen is first tried in a child process); lost or reordered sectors behind an acknowledged write and ENOSPC inside badger are out of reach (badger owns its file I/O). Old-format databases are generated with up to 260 identities with 128-digit ids. Crash points are enumerated per history; histories are sampled.",
+   text="For every generated history, a crash image of the database directory is taken at every in-transaction yield point of every operation and after every operation, reopened (sometimes with the exact production options) and compared with the model before/after the interrupted operation; a concurrent reader checks isolation while the writer is parked; close+reopen after every operation; old on-disk formats 0/1/2 are synthesised and opened through the driver with a crash image inside the migration (also between the transactions of a migration that needs several: databases with thousands of saved nonces on 1 MB tables); c13_migrate_big opens format-0/1 databases with 20 000 to 120 000 saved nonces under the production options. Nonces saved before the upgrade must be refused after it, also in every crash image.",
+   note="Process kill is modelled as a copy of the database directory while every goroutine is parked (what the page cache holds, as after SIGKILL), one image in three additionally with the last value-log write torn (cut strictly inside the bytes the interrupted commit appended; the reopen is first tried in a child process); lost or reordered sectors behind an acknowledged write and ENOSPC inside badger are out of reach (badger owns its file I/O). Old-format databases are generated with up to 260 identities with 128-digit ids and up to 7 000 (c13_migrate) / 120 000 (c13_migrate_big) saved nonces. Crash points are enumerated per history; histories are sampled.",
    technique=TECH+"crash-image enumeration at in-transaction yield points (hook H1) + restart, refinement against a reference model", design="4 C13"),
 })
 
